@@ -97,9 +97,18 @@ def run_cli(root: str, argv: list, *, extra_sys_path: list = (), env: dict | Non
     griffe = ensure_repo()
     before = _snapshot(root)
     out, err = io.StringIO(), io.StringIO()
+    saved_fd2 = os.dup(2)         # git children of check() inherit fd 2 (e.g. "fatal: not a git repository"): keep the report clean
+    devnull = os.open(os.devnull, os.O_WRONLY)
     with _process_state(root, list(extra_sys_path), env):
+        os.dup2(devnull, 2)
         try:
             with contextlib.redirect_stdout(out), contextlib.redirect_stderr(err):
+                # colorama remembers the streams of its first init() for the life of the process: make it remember
+                # the streams of THIS run (check() calls colorama.deinit() before colorama.init())
+                import colorama  # noqa: PLC0415
+
+                colorama.init()
+                colorama.deinit()
                 rc = griffe.main(list(argv))
         except SystemExit as exc:
             rc = exc.code if isinstance(exc.code, int) else (0 if exc.code is None else 1)
@@ -109,6 +118,10 @@ def run_cli(root: str, argv: list, *, extra_sys_path: list = (), env: dict | Non
             rc = 1          # what the interpreter does with an uncaught exception under `python -m griffe`
         else:
             status = f"return:{rc}"
+        finally:
+            os.dup2(saved_fd2, 2)
+            os.close(saved_fd2)
+            os.close(devnull)
     files = _new_files(root, before)
     return {"rc": rc, "status": status, "stdout": out.getvalue(), "stderr": err.getvalue(), "files": files}
 
